@@ -641,6 +641,9 @@ def _worker_entry(a):
                     raise
                 except Exception:
                     c.stats.inconc("worker_exception")
+                    if c.stats.inconclusive.get("worker_exception", 0) == 1:
+                        sys.stderr.write("NOTE monitor raised on a unit (worker %d): %s\n" % (c.idx, traceback.format_exc()[-1500:]))
+                        sys.stderr.flush()
                     if len(c.stats.notes) < 3:
                         c.stats.notes.append("monitor raised on a unit (worker %d): %s" % (c.idx, traceback.format_exc()[-1500:]))
                     if c.stats.inconclusive.get("worker_exception", 0) > 50:
